@@ -47,9 +47,23 @@ structure Output where
   to : Name
 deriving DecidableEq, Repr
 
+/-- The aggregated form.  The slot takes a "unified" signature whose own type field selects the
+scheme `VerifyXuperSignature` checks it with: only a multi-signature (`multi`) is made by all the
+listed keys together; a plain ECDSA / Schnorr / threshold signature is checked against the FIRST key
+only, a ring signature shows that some one member signed.  `sigOk` is the answer of the check. -/
 structure XSign where
   keyAddrs : List (Option Addr)   -- address of each listed public key (`none`: does not parse)
   sigOk : Bool                    -- VerifyXuperSignature(keys, signature, digest)
+  multi : Bool := true            -- the signature declares itself a multi-signature
+deriving DecidableEq, Repr
+
+/-- a write of the transaction's write set into one of the access-control tables, by the account
+whose rule decides over it (`verifyRWSetPermission`): `XCAccount/<account>`, `XCContract2Account`
+(value = the account), `XCContract/<contract>.<method>` (the account the confirmed owner table gives
+for the contract; `none`: no confirmed owner entry) -/
+inductive AclWrite where
+  | account (n : Nat)
+  | method (owner : Option Nat)
 deriving DecidableEq, Repr
 
 structure Tx where
@@ -65,11 +79,19 @@ structure Tx where
   carried contract requests is said to have spent and paid -/
   contractInputs : List Input := []
   contractOutputs : List Output := []
+  /-- the transaction carries contract requests (`verifyRWSetPermission` passes directly otherwise) -/
+  hasRequests : Bool := false
+  /-- the methods (abstract ids) the carried requests call, in order -/
+  calls : List Nat := []
+  /-- the writes of `TxOutputsExt` into the access-control tables, in order -/
+  aclWrites : List AclWrite := []
 deriving DecidableEq, Repr
 
 structure Env where
   acctOk : Nat → List AuthReq → Bool      -- IdentifyAccount(account, AuthRequire-style uris)
   acctExists : Nat → Bool                 -- queryAccountACL finds an ACL
+  /-- CheckContractMethodPerm(users, contract, method) for the method with this id (no stored rule: open) -/
+  methodOk : Nat → List AuthReq → Bool := fun _ _ => true
 
 /-- `IdentifyAK` / `VerifySign`: key hashes to the address and the signature verifies -/
 def identifyAK (a : Addr) (s : Sig) : Bool := s.keyAddr == some a && s.sigOk
@@ -89,16 +111,25 @@ def initAcctLoop : List Sig → List Name → List AuthReq → Nat → Option (L
     | none => none
     | some a => if s.sigOk then initAcctLoop rest (.ak a :: v) (uris ++ [⟨some acct, a⟩]) acct else none
 
-def verifyXuperSign (t : Tx) (x : XSign) : Option (List Name) :=
-  -- initiator first, then the distinct last components of AuthRequire
-  let addrs : List Name := t.authRequire.foldl (fun acc r => if acc.contains (.ak r.addr) then acc else acc ++ [.ak r.addr]) [t.initiator]
+/-- the addresses the aggregated form has to answer for: initiator first, then the distinct last
+components of AuthRequire -/
+def xuperAddrs (t : Tx) : List Name :=
+  t.authRequire.foldl (fun acc r => if acc.contains (.ak r.addr) then acc else acc ++ [.ak r.addr]) [t.initiator]
+
+/-- `verifyXuperSign`; `needMulti`: several addresses demand a multi-signature (the repaired code;
+`false` = the code as found, which took any scheme) -/
+def verifyXuperSignWith (needMulti : Bool) (t : Tx) (x : XSign) : Option (List Name) :=
+  let addrs : List Name := xuperAddrs t
   if addrs.length != x.keyAddrs.length then none
   else if x.keyAddrs.any (·.isNone) then none
   else if (addrs.zip x.keyAddrs).all (fun p => match p.1, p.2 with
       | .ak a, some k => a == k
       | _, _ => false) then
-    (if x.sigOk then some addrs else none)
+    (if needMulti && decide (1 < x.keyAddrs.length) && !x.multi then none
+     else if x.sigOk then some addrs else none)
   else none
+
+def verifyXuperSign (t : Tx) (x : XSign) : Option (List Name) := verifyXuperSignWith true t x
 
 /-- `verifySignatures`: the verified ids, or `none` = reject -/
 def verifySignatures (e : Env) (t : Tx) : Option (List Name) :=
@@ -218,9 +249,94 @@ def verifyTxC (exempt : Tx → Input → Bool) (e : Env) (code : List Transfer) 
   verifyTxWith exempt e t && verifyContract code t
 
 /-- specification side: address `a` has, in this transaction, an entry whose key hashes to `a`
-and whose signature over the digest verifies -/
+and whose signature over the digest verifies; in the aggregated form: the signature verifies and `a`'s
+key took part in it — any listed key of a multi-signature, the first key of every other scheme -/
 def signedBy (t : Tx) (a : Addr) : Prop :=
   (∃ s ∈ t.initiatorSigns ++ t.authRequireSigns, s.keyAddr = some a ∧ s.sigOk = true) ∨
-  (∃ x, t.xuper = some x ∧ x.sigOk = true ∧ some a ∈ x.keyAddrs)
+  (∃ x, t.xuper = some x ∧ x.sigOk = true ∧
+    ((x.multi = true ∧ some a ∈ x.keyAddrs) ∨ (x.multi = false ∧ x.keyAddrs = [some a])))
+
+/-! ### the remaining access-control stage, the two results of the verification, `Chain.SubmitTx` -/
+
+/-- `verifyUTXOPermission` handing on the verified ids it extends (`verifiedID` is shared with
+`verifyRWSetPermission`) -/
+def utxoLoopV (e : Env) (auth : List AuthReq) (exempt : Input → Bool) : List Input → List Name → Option (List Name)
+  | [], v => some v
+  | i :: rest, v =>
+    if exempt i then utxoLoopV e auth exempt rest v
+    else if v.contains i.owner then utxoLoopV e auth exempt rest v
+    else match i.owner with
+      | .account n => if e.acctExists n && e.acctOk n auth then utxoLoopV e auth exempt rest (i.owner :: v) else none
+      | .ak _ => none
+      | .invalid => none
+
+/-- `verifyRWSetPermission`: every write into an access-control table needs the account that decides
+over it — already verified, or its rule satisfied by AuthRequire; a method rule of a contract
+without confirmed owner entry is refused -/
+def rwPermLoop (e : Env) (auth : List AuthReq) : List AclWrite → List Name → Bool
+  | [], _ => true
+  | w :: rest, v =>
+    match w with
+    | .method none => false
+    | .account n | .method (some n) =>
+      if v.contains (.account n) then rwPermLoop e auth rest v
+      else if e.acctOk n auth then rwPermLoop e auth rest (.account n :: v) else false
+
+/-- `removeDuplicateUser`: an address initiator and the AuthRequire entries, each once -/
+def users (t : Tx) : List AuthReq :=
+  ((match t.initiator with
+    | .ak a => [(⟨none, a⟩ : AuthReq)]
+    | _ => []) ++ t.authRequire).eraseDups
+
+/-- `verifyContractPermission`: the rule of every called method is satisfied by the users -/
+def methodPerm (e : Env) (t : Tx) : Bool := t.calls.all (fun m => e.methodOk m (users t))
+
+/-- the stages of `ImmediateVerifyTx` that decide on signatures and access control -/
+inductive Stage where
+  | txid | sigs | utxo | method | rwperm
+deriving DecidableEq, Repr
+
+/-- the first stage that refuses (`none`: all pass); the stages this model does not cover (amounts,
+re-execution) are taken to pass -/
+def firstRefusal (e : Env) (t : Tx) : Option Stage :=
+  if !t.txidOk then some .txid else
+  match verifySignatures e t with
+  | none => some .sigs
+  | some v =>
+    match utxoLoopV e t.authRequire (byContract t.contractInputs) t.inputs v with
+    | none => some .utxo
+    | some v' =>
+      if !methodPerm e t then some .method
+      else if !t.hasRequests || rwPermLoop e t.authRequire t.aclWrites v' then none else some .rwperm
+
+/-- the two results `(ok, err ≠ nil)` of `ImmediateVerifyTx` / `State.VerifyTx` -/
+structure Verdict where
+  ok : Bool
+  err : Bool
+deriving DecidableEq, Repr
+
+/-- `ImmediateVerifyTx` as composed in the code: `if !ok { return ok, ErrX }`.  `handsOn s`: the
+stage's OWN error value is returned instead of the fixed one (no stage does in the code as it is);
+`own s`: that own value is non-nil (a stage that refuses because a rule is not satisfied has none) -/
+def immediateVerifyWith (handsOn own : Stage → Bool) (e : Env) (t : Tx) : Verdict :=
+  match firstRefusal e t with
+  | none => ⟨true, false⟩
+  | some s => ⟨false, if handsOn s then own s else true⟩
+
+def immediateVerify (e : Env) (t : Tx) : Verdict := immediateVerifyWith (fun _ => false) (fun _ => false) e t
+
+/-- `State.VerifyTx`: a transaction that fails and spends an output of a transaction the operator
+has marked (`relies`) gets the answer of `verifyMarked` — at submission a refusal; `markedErr`: that
+refusal carries an error (the repaired code; `false` = the code as found) -/
+def stateVerifyTxWith (markedErr : Bool) (relies : Bool) (v : Verdict) : Verdict :=
+  if v.ok && !v.err then v else if relies then ⟨false, markedErr⟩ else v
+
+def stateVerifyTx (relies : Bool) (e : Env) (t : Tx) : Verdict := stateVerifyTxWith true relies (immediateVerify e t)
+
+/-- `Chain.SubmitTx`: `_, err := VerifyTx(tx); if err != nil { refuse }`, then `DoTx` (which checks
+no signature; `spendable`: the token side is in order, `DoTx` succeeds) -/
+def submitOf (v : Verdict) (spendable : Bool) : Bool := !v.err && spendable
+
+def submitTx (relies : Bool) (e : Env) (t : Tx) (spendable : Bool) : Bool := submitOf (stateVerifyTx relies e t) spendable
 
 end XV.SigLogic
